@@ -329,3 +329,100 @@ def inline_locals(ff: FuncFacts, expr: ast.expr, depth: int = 6) -> ast.expr:
         return new
 
     return rec(expr, ff.node_of(expr), depth)
+
+
+def static_truth(test: ast.expr, consts: dict) -> bool | None:
+    """truth value of a condition over names whose constant value is known (``consts``: name -> python constant):
+    comparisons with literals, membership in literal displays, identity with None, not / and / or; None = unknown"""
+    def val(e):
+        if isinstance(e, ast.Constant):
+            return True, e.value
+        if isinstance(e, ast.Name) and e.id in consts:
+            return True, consts[e.id]
+        if isinstance(e, (ast.Tuple, ast.List, ast.Set)):
+            vs = [val(x) for x in e.elts]
+            if all(k for k, _ in vs):
+                return True, tuple(v for _, v in vs)
+        return False, None
+
+    if isinstance(test, ast.UnaryOp) and isinstance(test.op, ast.Not):
+        t = static_truth(test.operand, consts)
+        return None if t is None else (not t)
+    if isinstance(test, ast.BoolOp):
+        ts = [static_truth(v, consts) for v in test.values]
+        if isinstance(test.op, ast.And):
+            if any(t is False for t in ts):
+                return False
+            return True if all(t is True for t in ts) else None
+        if any(t is True for t in ts):
+            return True
+        return False if all(t is False for t in ts) else None
+    if isinstance(test, ast.Compare) and len(test.ops) == 1:
+        (ka, a), (kb, b) = val(test.left), val(test.comparators[0])
+        if not (ka and kb):
+            return None
+        op = test.ops[0]
+        try:
+            if isinstance(op, ast.Eq):
+                return a == b
+            if isinstance(op, ast.NotEq):
+                return a != b
+            if isinstance(op, ast.Is):
+                return a is b
+            if isinstance(op, ast.IsNot):
+                return a is not b
+            if isinstance(op, ast.In):
+                return a in b
+            if isinstance(op, ast.NotIn):
+                return a not in b
+        except TypeError:
+            return None
+        return None
+    k, v = val(test)
+    if k and isinstance(test, ast.Name):
+        return bool(v)
+    return None
+
+
+def closure_paths(pm: PM, cls: ClassInfo, entry: FuncInfo, g: FuncInfo, expr: ast.expr, spine_only: bool = True, depth: int = 0,
+                  _clo: list | None = None) -> list[Path]:
+    """provenance of an expression that lives in ``g`` - ``entry`` itself or a same-class helper that ``entry`` calls
+    (transitively) - expressed in terms of ``entry``: parameters of the helper are replaced by the provenance of the
+    arguments at its call sites inside the closure of ``entry``; helper calls met on the way are followed"""
+    from ..prov import Frame
+
+    gf = FuncFacts.of(g)
+    ps = gf.paths(expr, spine_only=spine_only, follow=True)
+    if g is entry or depth >= 3:
+        return ps
+    clo = _clo if _clo is not None else class_closure(pm, cls, entry)
+    sites = [(caller, call) for caller, call in callers_in_class(pm, cls, g) if any(caller is x for x in clo)]
+    if not sites:
+        return ps
+    out: list[Path] = []
+    for caller, call in sites:
+        cf = FuncFacts.of(caller)
+        fr = Frame(gf, FuncFacts.bind_call(g, call), cf, cf.node_of(call), None)
+        out += cf._lift(ps, fr, lambda a, caller=caller: closure_paths(pm, cls, entry, caller, a, spine_only, depth + 1, clo))
+    return out
+
+
+def effective_guards(ff: FuncFacts, node: ast.AST) -> list[tuple[ast.expr, bool, str]]:
+    """(condition, truth value, kind) for every guard of ``node`` - if / elif / else nesting, early exits (return, raise,
+    continue, break), conditional expressions, short-circuit operators - with named flags substituted by their
+    definitions and leading ``not`` folded into the truth value: `if not c: continue` followed by the statement and
+    `if c: <statement>` give the same entry (c, True)."""
+    out = []
+    for g in ff.guards(node):
+        if g.kind == "case":
+            out.append((g.test, g.polarity, "case"))
+            continue
+        try:
+            t = inline_locals(ff, g.test)
+        except Exception:
+            t = g.test
+        pol = g.polarity
+        while isinstance(t, ast.UnaryOp) and isinstance(t.op, ast.Not):
+            t, pol = t.operand, not pol
+        out.append((t, pol, g.kind))
+    return out
